@@ -18,6 +18,8 @@ func leaves(thorough bool) []*Node {
 		NInt(KInt8, false, 1), NInt(KInt16, false, 1), NInt(KInt32, false, 1), NInt(KInt64, false, 1),
 		NUint(KUint, false, 1), NUint(KUint8, false, 1), NUint(KUint16, false, 1), NUint(KUint32, false, 1), NUint(KUint64, false, 1),
 		NFloat(KFloat32, false, 1.5), NFloat(KFloat64, false, 1), NFloat(KFloat64, false, 1.5), NFloat(KFloat64, true, 1.5), NFloat(KFloat32, false, 1.0000001192092896),
+		NFloat(KFloat32, false, float64(float32(0.1))), NFloat(KFloat64, false, 0.1),
+		NSlice(TAny, NFloat(KFloat32, false, float64(float32(0.1))), NFloat(KFloat64, false, 0.1)), NSlice(TAny, NFloat(KFloat64, false, 0.3), NFloat(KFloat32, false, float64(float32(0.1)))),
 		str(""), str("a"), str("1"), str("true"), NStr(true, "a"),
 		NJSON("1"), NJSON("1.5"), NJSON("1e3"), NJSON("zz"),
 		NNilAny(), NPtr(one), NNilPtr(TInt), NPtr(NPtr(one)), NPtr(str("a")),
@@ -37,6 +39,8 @@ func leaves(thorough bool) []*Node {
 		// []interface{} with RUNS of one kind that contain the zero value (a literal that cannot be read in that kind must
 		// be skipped element by element, never compared against a left-over zero)
 		NSlice(TAny, NInt(KInt, false, 7), NInt(KInt, false, 0)), NSlice(TAny, NFloat(KFloat64, false, 1.5), NFloat(KFloat64, false, 0)), NSlice(TAny, NBool(false, true), NBool(false, false)),
+		// typed pointer lists where a nil pointer PRECEDES the matching element (a nil element is skipped, it does not end the search)
+		NSlice(&Type{K: KPtr, Elem: TInt}, NNilPtr(TInt), NPtr(one)), NArray(&Type{K: KPtr, Elem: TStr}, NNilPtr(TStr), NPtr(str("a"))),
 		// interface lists holding pointer chains that END in nil at depth 2, and non-nil chains of depth 2
 		NSlice(TAny, NPtr(NNilPtr(TInt)), one), NSlice(TAny, NPtr(NPtr(one)), NNilPtr(TInt)), NArray(TAny, NPtr(NNilPtr(TStr)), str("a")),
 		NSlice(TAny, str("a"), NUint(KUint8, false, 3), NUint(KUint8, false, 0), str("")), NSlice(TAny, NFloat(KFloat32, false, 1.5), NFloat(KFloat64, false, 1.5), NFloat(KFloat32, false, 0)),
@@ -147,7 +151,12 @@ var jsonTexts = []string{
 	// shapes for nested quantifiers that re-bind a name / range over the outer alias
 	`{"a":[{"a":[1,2]},{"a":[3]}]}`, `{"a":[{"a":[2]},{"a":[1,1]}]}`, `{"a":{"k":{"a":[1]},"l":{"a":[2,1]}}}`, `{"a":[{"a":[{"a":1}]},{"a":[]}]}`,
 	`{"a":{"a.a":1,"a/a":2,"a":{"a":3}},"b":1}`, `{"a":[8080,0,"http"],"b":[0.0,1.5]}`,
+	// keys that BEGIN with a keyword of the language (a keyword needs a word boundary)
+	`{"notes":"a","nota":1,"anything":{"a":1},"inner":["a"],"isle":"a","allow":1,"android":"a","orange":1,"matchesx":"a","containsy":"a","emptyz":"","es":"b","a":"a"}`,
 }
+
+// selectors whose first identifier begins with a keyword
+var selsKeywordish = [][]string{{"notes"}, {"nota"}, {"anything", "a"}, {"inner"}, {"isle"}, {"allow"}, {"android"}, {"orange"}, {"matchesx"}, {"containsy"}, {"emptyz"}}
 
 func docs(thorough bool) []*Node {
 	ls := leaves(thorough)
@@ -200,7 +209,9 @@ func docs(thorough bool) []*Node {
 
 var lits = []string{"", "a", "b", "1", "0", "-1", "1.5", "true", "T", "0x1", "1_0", "1e3", "inf", "99999999999999999999", "abc", "a+", "(", "7", "1.0", "+1", "1000", "/a/b", "nothing", "http",
 	// beyond the float32 range / beside a float32 rounding midpoint (the literal must be read in the width of the value)
-	"1e39", "1.00000005960464477539062500000000000001"}
+	"1e39", "1.00000005960464477539062500000000000001",
+	// not exact in float32: a reading made for one float width must not be reused for the other
+	"0.1"}
 
 var selsQuick = [][]string{{"a"}, {"b"}, {"a", "a"}, {"a", "b"}, {"a", "c"}, {"a", "0"}, {"a", "1"}, {"a", "2"}, {"a", "true"}, {"a", "A"}, {"a", "H"}, {"a", "u"},
 	{"a", "a", "a"}, {"a", "0", "a"}, {"a", "a", "0"}, {"a", "0", "0"}, {"a", "a", "c"}, {"a", ""}, {"a", "x"}, {"a", "01"}}
@@ -302,6 +313,7 @@ func exprs(thorough bool) []any {
 	var out []any
 	out = append(out, matchExprs(selsQuick, lits)...)
 	out = append(out, matchExprs(selsDeep, []string{"1", "a", ""})...)
+	out = append(out, matchExprs(selsKeywordish, []string{"1", "a", "nothing"})...)
 	for _, sel := range selsDeep {
 		out = append(out, &Quant{All: false, Sel: sel[:len(sel)-1], Mode: BindBoth, Idx: "i", Val: "x", Body: &Match{Sel: []string{"x"}, Op: OpEq, Lit: "1"}})
 	}
